@@ -16,7 +16,7 @@ def run_inter(db, case):
         o.id = dec(f["id"])
     before = [(str(o), copy.deepcopy(dict(o.attributes.items()))) for o in objs]
     tc = db.conn.total_changes
-    kw = {"new_featuretype": dec(cfg["newtype"]) if cfg["newtype"] else None, "merge_attributes": cfg["mergeAttrs"], "numeric_sort": cfg["numeric"]}
+    kw = {"new_featuretype": dec(cfg["newtype"]) if cfg["newtype"] else ("" if cfg.get("typeGiven") else None), "merge_attributes": cfg["mergeAttrs"], "numeric_sort": cfg["numeric"]}
     if cfg["update"]:
         kw["update_attributes"] = {dec(k): [dec(v) for v in vs] for k, vs in cfg["update"]}
     try:
